@@ -39,6 +39,8 @@ def run(ctx):
     import C03
     sp = ir.load_units([os.path.join(ir.REPO, 'src', 'String.cpp')]) if not any(f.get('pq') == 'asl::String::trimmed' and f.get('body') for f in prog.functions) else prog
     C03.check_trim(ctx, sp, rule='C09.lines')
+    # Url::parseQuery / HttpRequest::query() / form bodies cut the query into parameters with String::split(sep1, sep2)
+    C03.check_split_dic(ctx, sp, rule='C09.query')
     return __doc__.split('\n\n', 1)[1]
 
 
